@@ -108,10 +108,13 @@ struct WorkerOut {
 }
 
 #[allow(clippy::too_many_arguments)]
-fn worker(prop: &'static str, seed: u64, first_run: u64, runs: u64, w: u64, threads: u64, min_fail: Arc<AtomicU64>, want_digest: bool) -> WorkerOut {
+fn worker(prop: &'static str, thorough: bool, seed: u64, first_run: u64, runs: u64, w: u64, threads: u64, min_fail: Arc<AtomicU64>, want_digest: bool) -> WorkerOut {
     apimon::reset_thread_counters();
     let pi = prop_index(prop).unwrap();
-    let preset = gen::preset_for(prop);
+    let mut preset = gen::preset_for(prop);
+    if thorough {
+        preset.long_pm = 25;
+    }
     let mut out = WorkerOut {
         probes: Probes::new(),
         nontrivial_hashes: Vec::new(),
@@ -357,6 +360,7 @@ fn cmd_run(a: &Args) -> i32 {
     apimon::set_full_surface(prop == "C18");
     let tier = a.get("tier").map(|s| s.to_string()).or_else(|| std::env::var("VERIF_TIER").ok()).unwrap_or_else(|| "quick".into());
     let tier = if tier == "thorough" { "thorough" } else { "quick" };
+    let thorough = tier == "thorough";
     let seed: u64 = a.num("seed").or_else(|| std::env::var("VERIF_SEED").ok().and_then(|s| s.trim().parse().ok())).unwrap_or(1);
     let profile = a.get("profile").unwrap_or(profile_name()).to_string();
     let runs = a.num("runs").unwrap_or_else(|| default_runs(prop, tier, &profile));
@@ -370,7 +374,7 @@ fn cmd_run(a: &Args) -> i32 {
     let handles: Vec<_> = (0..threads)
         .map(|w| {
             let mf = min_fail.clone();
-            std::thread::Builder::new().stack_size(16 << 20).spawn(move || worker(prop, seed, first_run, runs, w, threads, mf, want_digest)).unwrap()
+            std::thread::Builder::new().stack_size(16 << 20).spawn(move || worker(prop, thorough, seed, first_run, runs, w, threads, mf, want_digest)).unwrap()
         })
         .collect();
     let mut outs = Vec::new();
